@@ -167,7 +167,7 @@ func genPool(t *rapid.T, idx int, allowMut bool) poolSpec {
 	}
 	if allowMut {
 		muts := []string{"outside_hi", "outside_lo", "reversed", "badliteral", "nogateway", "nosubnet", "nonodesubnet",
-			"badrangejson", "gateway_outside"}
+			"badrangejson", "gateway_outside", "trailing_segment"}
 		if len(ranges) >= 2 {
 			muts = append(muts, "unsorted", "overlap", "adjacent", "unsorted", "overlap", "adjacent")
 		}
@@ -203,6 +203,11 @@ func genPool(t *rapid.T, idx int, allowMut bool) poolSpec {
 			} else {
 				ips[i] = ipStr(r[1]) + "~" + ipStr(r[0])
 			}
+		case "trailing_segment":
+			// a well-formed, in-place range followed by one more separator and anything (a typo of "~" for "," joins two ranges)
+			r := ranges[i]
+			tail := rapid.SampledFrom([]string{"", "garbage", ipStr(r[1]), ipStr(r[1] + 1), "~"}).Draw(t, "tail")
+			ips[i] = ipStr(r[0]) + "~" + ipStr(r[1]) + "~" + tail
 		case "badliteral":
 			ips[i] = rapid.SampledFrom([]string{"1.2.3", "abc", "", "1.2.3.4-1.2.3.5", "1.2.3.256", "1.2.3.4~", "~1.2.3.4",
 				"1.2.3.4~~1.2.3.5", " ", "1.2.3.4/24", "1.2.3.4,1.2.3.5"}).Draw(t, "badLit")
@@ -473,6 +478,11 @@ func checkRangeString(a, b uint32, r *vcore.Rec) *vcore.Failure {
 	}
 	if got == nil {
 		return vcore.Failf("c20:range_rejected", "ParseIPRange(%q) rejected a valid range", s)
+	}
+	for _, tail := range []string{"~", "~" + ipStr(b), "~x"} {
+		if extra := nets.ParseIPRange(s + tail); extra != nil {
+			return vcore.Failf("c20:range_trailing_accepted", "ParseIPRange(%q) accepted a string with a trailing segment as %s", s+tail, extra.String())
+		}
 	}
 	if nets.IPToInt(got.First) != a || nets.IPToInt(got.Last) != b {
 		return vcore.Failf("c20:range_value", "ParseIPRange(%q) = %v", s, got)
